@@ -20,6 +20,7 @@ func init() {
 			c.run("C20-R3", "WHO-WRITES: the displayed step never decreases within a file", c20R3)
 			c.run("C20-R4", "GUARD-DOM: layout ladder", c20R4)
 			c.run("C20-R5", "GUARD-DOM: name shortening measures by display width", c20R5)
+			c.run("C20-R10", "ORDER: the width given back to the bar after the stop prompt is read when the prompt ends", c20R10)
 			c.run("C20-R9", "GUARD-DOM: a percentage is turned into an integer only after it was clamped as a float", c20R9)
 			c.run("C20-R8", "GUARD-DOM/WHO-WRITES: variable indexes into fixed-size arrays in the progress code are bounded loop counters, ring indexes with their wrap test, or guarded", c20R8)
 			c.run("C20-R7", "GUARD-DOM (interprocedural): counts handed to Grow / Repeat while rendering cannot be negative", c20R7)
@@ -941,5 +942,39 @@ func c20R9(c *Ctx) {
 	})
 	if n == 0 {
 		c.ok("showProgress/float-clamped-before-int", c.pos(f.Pos()), "showProgress converts no float to an integer (the percentage is formatted as a float after its clamp)")
+	}
+}
+
+// c20R10: after the stop/continue prompt the bar is told the terminal width again. The width must be the one in force
+// when the prompt ends (the terminal may have been resized while it was shown). `defer bar.setTerminalColumns(w)`
+// evaluates w when the defer statement runs — before the prompt — and later overwrites a newer width: a deferred
+// width setter must sit inside a deferred closure that reads the width when it runs.
+func c20R10(c *Ctx) {
+	n := 0
+	for _, f := range c.AllFns {
+		eachInstr(f, func(in ssa.Instruction) {
+			d, ok := in.(*ssa.Defer)
+			if !ok {
+				return
+			}
+			id := calleeID(&d.Call)
+			if !strings.HasSuffix(id, ".setTerminalColumns") && !strings.HasSuffix(id, ".SetTerminalColumns") {
+				return
+			}
+			n++
+			constArg := true
+			for i, a := range d.Call.Args {
+				if i == 0 && !d.Call.IsInvoke() {
+					continue // the receiver
+				}
+				if _, isK := a.(*ssa.Const); !isK {
+					constArg = false
+				}
+			}
+			c.check(constArg, "deferred-width/"+c.fnName(f), c.ipos(d), "no width is captured at defer time", "a width setter is deferred with its argument evaluated at the defer statement: a resize in the meantime is overwritten with the stale width when the function returns (lines wider than the terminal)")
+		})
+	}
+	if n == 0 {
+		c.ok("deferred-width/none", "", "no width setter is deferred with a captured argument (the one after the stop prompt runs inside a deferred closure)")
 	}
 }
